@@ -8,6 +8,7 @@
 #include <cmath>
 #include <fstream>
 #include <memory>
+#include <set>
 #include <sstream>
 #define private public
 #define protected public
@@ -181,6 +182,32 @@ int main()
         std::cout << "ori " << vp::hex(z) << " " << n << "\n";
       } else if (op == "net" && t.size() == 2) {
         run_net(t);
+      } else if (op == "acorddbg" && t.size() == 2) {
+        // investigation aid: the rounds of Acord2::execute unrolled, the point list after every strategy
+        std::unique_ptr<LocalNetwork> IS(new LocalNetwork);
+        {
+          std::ifstream inp(t[1]);
+          GNU_gama::local::GKFparser gkf(*IS);
+          string l;
+          while (std::getline(inp, l)) { l += "\n"; gkf.xml_parse(l.c_str(), l.length(), 0); }
+          gkf.xml_parse("", 0, 1);
+        }
+        IS->remove_inconsistency();
+        Acord2 ac(IS->PD, IS->OD);
+        for (int round = 1; round <= 3 && !(ac.missing_xy_.empty() && ac.missing_z_.empty()); round++) {
+          for (const auto& a : ac.algorithms_) {
+            std::set<PointID> before = ac.missing_xy_;
+            a->execute();
+            std::cout << "round " << round << " " << a->className() << " cand_xy " << ac.candidate_xy_.size();
+            for (auto& id : before) {
+              const LocalPoint& p = IS->PD[id];
+              if (p.test_xy()) std::cout << " " << id << "=(" << p.x() << "," << p.y() << ")";
+            }
+            std::cout << "\n";
+          }
+          for (auto& c : ac.candidate_xy_) std::cout << "  candidate " << c.first << " (" << c.second.x() << "," << c.second.y() << ")\n";
+          ac.get_medians(); ac.candidate_xy_.clear(); ac.get_medians_z(); ac.candidate_z_.clear(); ac.traverses.clear();
+        }
       } else if (op == "acordnet" && t.size() == 2) {
         // parse a .gkf, run Acord2::execute once, report which points have approximate xy / z afterwards
         std::unique_ptr<LocalNetwork> IS(new LocalNetwork);
